@@ -137,3 +137,108 @@ def rule_threshold_tests(chk, rid, select=None, floor=20):
             if not bad:
                 r.ok(key, {c_: len(v_) for c_, v_ in ccs.items()})
     return r
+
+
+# ------------------------------------------------------------------------------------------------ definition / use
+
+import json as _json, os as _os
+DU_BASELINE = _os.path.join(_os.path.dirname(_os.path.dirname(_os.path.abspath(__file__))), 'data', 'defuse_baseline.json')
+_AEAD = re.compile(r'gcm|ccm|chacha20_poly|poly1305_aead|pon|docsis|snow_?v|aead', re.I)
+_HASH = re.compile(r'sha|md5|hmac|cmac|xcbc|ghash|gmac|poly|crc|eia3|uia2|f9|sm3|cbc_mac', re.I)
+
+
+def family_of(rel, name):
+    """which property a routine's value-level facts are reported under: 'mgr' (multi-buffer manager routine), 'aead', 'hash', 'cipher'"""
+    if re.match(r'^(submit|flush)_job', name):
+        return 'mgr'
+    s = name + ' ' + rel.split('/')[-1]
+    if _AEAD.search(s):
+        return 'aead'
+    if _HASH.search(s):
+        return 'hash'
+    return 'cipher'
+
+
+_CALLABLE = {}
+
+
+def _callable():
+    """names of the assembly routines with a C prototype: their live-out registers at `ret` are those of the C ABI (return value and
+    callee-saved registers); a routine only ever entered from other assembly may hand results back in any register"""
+    if 'set' not in _CALLABLE:
+        from .. import cf
+        from . import c18
+        try:
+            _CALLABLE['set'] = set(c18.callable_set(cf.PROGRAM[0] or cf.Program()))
+        except Exception:
+            _CALLABLE['set'] = set()
+    return _CALLABLE['set']
+
+
+def _dead(res, name):
+    du = res.get('du') or {}
+    return du.get('dead_abi', []) if name in _callable() else du.get('dead', [])
+
+
+def du_counts(res, name=None):
+    du = dict(res.get('du') or {'dead': [], 'uninit': []})
+    du['dead'] = _dead(res, name)
+    ug = {r_ for _, r_, _ in du['uninit'] if not r_.startswith(('v', 'k'))}
+    uv = {r_ for _, r_, _ in du['uninit'] if r_.startswith(('v', 'k'))}
+    return [len(du['dead']), len(ug), len(uv)]
+
+
+def write_du_baseline():
+    out = {}
+    for rel, name, res in asmfacts.all_functions():
+        out[name] = du_counts(res, name)
+    with open(DU_BASELINE, 'w') as f:
+        _json.dump({'note': 'per assembled routine on the reference tree: [dead definitions, general registers read before any definition, '
+                            'vector/mask registers read before any definition]; python3 -m imbv.rules.clones --write-baseline',
+                    'functions': out}, f, indent=0, sort_keys=True)
+    return len(out)
+
+
+def rule_defuse(chk, rid_dead, rid_uninit, families, floor=20):
+    """deviance rules over the exact CFG: computing a value states the belief that it is used, reading a register states the belief
+    that something defined it.  Decided against the reference tree's own counts per routine, so that the idioms the code base
+    already contains (piecewise vector construction, values kept for a later macro) are not findings"""
+    d1 = chk.rule(rid_dead, 'no routine computes more values that are never consumed than on the reference tree (a definition that no path '
+                            'reads before it is overwritten or the routine ends: the line consuming it went missing)', floor=floor)
+    d2 = chk.rule(rid_uninit, 'no routine reads more registers that nothing has defined on some path from its entry than on the reference '
+                              'tree (the line producing the value went missing on that path)', floor=floor)
+    if not _os.path.exists(DU_BASELINE):
+        chk.broken('definition/use baseline missing')
+        return
+    base = _json.load(open(DU_BASELINE))['functions']
+    for rel, name, res in asmfacts.all_functions():
+        if family_of(rel, name) not in families:
+            continue
+        b = base.get(name)
+        if b is None:
+            d1.ok(name + ':new', 'routine not on the reference tree')
+            continue
+        cur = du_counts(res, name)
+        du = dict(res.get('du') or {'dead': [], 'uninit': []})
+        du['dead'] = _dead(res, name)
+        if cur[0] > b[0]:
+            for a, txt in du['dead'][:max(3, cur[0] - b[0] + 2)]:
+                pass
+            shown = '; '.join('%s  [%s]' % (res['lines'].get(a, rel).split('  [')[0], txt) for a, txt in du['dead'][:6])
+            d1.bad(name, res['lines'].get(du['dead'][0][0], rel) if du['dead'] else rel,
+                   '%s now holds %d definitions whose value is never read (reference tree: %d): %s' % (name, cur[0], b[0], shown))
+        else:
+            d1.ok(name, cur[0])
+        if cur[1] > b[1] or cur[2] > b[2]:
+            shown = '; '.join('%s read at %s  [%s]' % (r_, res['lines'].get(a, rel).split('  [')[0], t) for a, r_, t in du['uninit'][:8])
+            d2.bad(name, res['lines'].get(du['uninit'][0][0], rel) if du['uninit'] else rel,
+                   '%s now reads %d general / %d vector registers before any definition on some path (reference tree: %d / %d): %s' % (
+                       name, cur[1], cur[2], b[1], b[2], shown))
+        else:
+            d2.ok(name, cur[1:])
+
+
+if __name__ == '__main__':
+    import sys as _sys
+    if '--write-baseline' in _sys.argv:
+        print(write_du_baseline())
